@@ -61,7 +61,7 @@ def run_history(w, hist: str, shared: bool, api: str, advancing: bool, real_entr
     cache_u = all_roots()  # unprotect needs the root key of whichever blob came last (public-key blobs cannot be opened by the unauthorised caller)
     out: t.List[t.Tuple[str, str, t.Any]] = []
     last_blob: t.Optional[bytes] = None
-    ent = seams.Entropy(b"C19")
+    ent = seams.Entropy(b"C19", collide=(real_entropy == "collide"))
 
     def go():
         nonlocal last_blob, cache, cache_u
@@ -118,7 +118,7 @@ def run_history(w, hist: str, shared: bool, api: str, advancing: bool, real_entr
                     out.append((op, "exc", repr(e)))
 
     with transport.network(dc), secctx.scripted_client(_ctx):
-        if real_entropy:
+        if real_entropy is True:
             go()
         else:
             with seams.entropy(ent):
@@ -170,7 +170,7 @@ def judge(acc, w, hist: str, shared: bool, api: str, advancing: bool, real_entro
         if len(set(vals)) != len(vals):
             dup = [i for i, x in enumerate(vals) if vals.index(x) != i]
             acc.violate(f"reused.{name}", case, {"protect_calls": len(vals), "repeat_at": dup, "value": vals[dup[0]].hex()[:80]}, size=len(hist))
-    if real_entropy:
+    if real_entropy is True:
         # with the real entropy sources every value ever produced in this process must be new, also across histories
         for name, vals in (("cek", ceks), ("gcm-nonce", nonces), ("key_info", infos)):
             seen = _PROCESS_SEEN[name]
@@ -186,8 +186,14 @@ def judge(acc, w, hist: str, shared: bool, api: str, advancing: bool, real_entro
     acc.outcome(f"protects={len(ceks)}")
     if len(ceks) >= 2:
         acc.nt(("h", hist, shared, api, advancing, real_entropy))
-    if not real_entropy:
+    if real_entropy is not True:
         acc.stat_max("entropy_draws_logged", len(ent.log))
+        # no value of a protect call rests on less entropy than the shortest of the three (the 96-bit GCM nonce)
+        short = [(who, len(v)) for who, v in ent.log if len(v) < 12]
+        if short:
+            acc.violate("entropy.short-draw", case, {"draws_shorter_than_96_bits": short[:6], "draws": len(ent.log)}, size=len(hist))
+        vals = [v for _, v in ent.log]
+        assert len(set(vals)) == len(vals), "entropy source repeated a block"
 
 
 def run_concurrent(w, ops: str, lifo: bool, real_entropy: bool):
@@ -223,7 +229,7 @@ def run_concurrent(w, ops: str, lifo: bool, real_entropy: bool):
                 out.append((op, "ok", bytes(v)) if st == "ok" else (op, "exc", repr(v)))
 
     try:
-        if real_entropy:
+        if real_entropy is True:
             go()
         else:
             with seams.entropy(ent):
@@ -280,7 +286,7 @@ def threads_explore(acc, w, ops: str, bound: int, part: int, parts: int, coarse:
 
 
 def shards(tier: str, seed: int):
-    out = [["long", api] for api in ("sync", "async")] + [["conc"]] + [["extra", api] for api in ("sync", "async")]
+    out = [["long", api] for api in ("sync", "async")] + [["collide", api] for api in ("sync", "async")] + [["conc"]] + [["extra", api] for api in ("sync", "async")]
     for ops in (THREAD_PAIRS[:2] if tier == "quick" else THREAD_PAIRS):
         for part in range(THREAD_PARTS):
             out.append(["threads", ops, 1, part, THREAD_PARTS, False])
@@ -333,6 +339,21 @@ def run_shard(shard, tier, seed, acc) -> None:
                     acc.states += 1
                     acc.transitions += len(hist)
         acc.sample({"extra alphabet": {"A": "protect(P1,SID1)", "G": "public-key mode, DH root key with a 509-bit private key", "R": "random.seed(constant)"}, "histories": n})
+        return
+    if shard[0] == "collide":
+        # entropy that never repeats a block but whose blocks agree under cheap digests (Adler-32, CRC-32, octet multiset, shared prefixes
+        # and suffixes): distinct draws must still give distinct values
+        n = 0
+        hists = ["A" * 12, "ABC" * 4, "AUAUAUAUAUAUAUAUAUAUAUA", "F" * 12, "D" * 12, "E" * 12, "G" * 12, "ADEADEADEADEADEADEADEADEADEADEADE"]
+        for hist in hists:
+            for shared in (True, False):
+                for advancing in (False, True):
+                    judge(acc, w, hist, shared, shard[1], advancing, "collide", ["shard", shard, tier])
+                    n += 1
+                    acc.ev()
+                    acc.states += 1
+                    acc.transitions += len(hist)
+        acc.sample({"colliding entropy": {str(k): [x.hex() for x in seams.collision_family(b"C19", k)] for k in (12,)}, "histories": hists})
         return
     if shard[0] == "long":
         # one long history (N protects with identical / alternating arguments, far beyond the depth bound) under both entropy sources
